@@ -33,27 +33,6 @@ pub open spec fn fixed_in<V: IntegerVariable>(live: Live, v: &V) -> bool {
 // reads are deterministic: the same store and the same variable give the same bound (whichever context reads it)
 pub uninterp spec fn store_lb<V: IntegerVariable>(live: Live, var: &V) -> int;
 pub uninterp spec fn store_ub<V: IntegerVariable>(live: Live, var: &V) -> int;
-// trailed integers (incremental state of a propagator): a function of the store identity
-#[derive(Clone, Copy)]
-pub struct TrailedInt { pub id: u32 }
-pub uninterp spec fn trailed_value(state: int, t: TrailedInt) -> int;
-#[derive(Clone, Copy)]
-pub struct StatefulPropagationContext<'a> { pub assignments: &'a Assignments }
-impl<'a> StatefulPropagationContext<'a> {
-    #[verifier::external_body]
-    pub fn value(&self, t: TrailedInt) -> (r: i64) ensures r == trailed_value(self.assignments.state@, t) { unimplemented!() }
-    #[verifier::external_body]
-    pub fn as_readonly(&self) -> (r: PropagationContext<'_>) ensures r.assignments.live == self.assignments.live, r.assignments.state == self.assignments.state { unimplemented!() }
-}
-impl<'a> PropagationContextMut<'a> {
-    pub open spec fn state(&self) -> int { self.assignments.state@ }
-    #[verifier::external_body]
-    pub fn value(&self, t: TrailedInt) -> (r: i64) ensures r == trailed_value(self.state(), t) { unimplemented!() }
-    #[verifier::external_body]
-    pub fn as_readonly(&self) -> (r: PropagationContext<'_>) ensures r.assignments.live@ == self.live(), r.assignments.state@ == self.state() { unimplemented!() }
-    #[verifier::external_body]
-    pub fn as_stateful_readonly(&self) -> (r: StatefulPropagationContext<'_>) ensures r.assignments.live@ == self.live(), r.assignments.state@ == self.state() { unimplemented!() }
-}
 impl<'a> PropagationContextMut<'a> {
     pub open spec fn live(&self) -> Live { self.assignments.live@ }
     pub open spec fn lb<V: IntegerVariable>(&self, var: &V) -> int { store_lb(self.assignments.live@, var) }
